@@ -121,10 +121,13 @@ impl From<ExpansionPiece> for Expansion {
 
 impl Expansion {
     fn classify(&self) -> ParameterState {
+        // A list of two or more elements is never null, even if every element is empty: its
+        // elements are joined by a separator.
         let non_empty = self
             .fields
             .iter()
-            .any(|field| field.0.iter().any(|piece| !piece.as_str().is_empty()));
+            .any(|field| field.0.iter().any(|piece| !piece.as_str().is_empty()))
+            || (self.from_array && self.fields.len() > 1);
 
         if self.undefined {
             ParameterState::Undefined
@@ -1254,6 +1257,13 @@ impl<'a, SE: extensions::ShellExtensions> WordExpander<'a, SE> {
                         brush_parser::word::ParameterTestType::Unset,
                         ParameterState::DefinedEmptyString,
                     ) => Ok(self.expand_parameter_word(alternative_value).await?),
+                    // An empty list expanded with [@] / $@ stays no word at all.
+                    _ if expanded_parameter.from_array
+                        && !expanded_parameter.concatenate
+                        && expanded_parameter.fields.is_empty() =>
+                    {
+                        Ok(expanded_parameter)
+                    }
                     _ => Ok(Expansion::from(String::new())),
                 }
             }
